@@ -550,3 +550,19 @@ func ByNameCached(name string) *Parser {
 	}
 	return parserCache[name]
 }
+
+var parserIDCache map[string]*Parser
+
+// ByID returns the parser with the given ID() (name plus "#arg" where the entry point takes one).
+func ByID(id string) *Parser {
+	if parserIDCache == nil {
+		parserIDCache = map[string]*Parser{}
+		for _, p := range Parsers() {
+			if _, ok := parserIDCache[p.ID()]; !ok {
+				pp := p
+				parserIDCache[p.ID()] = &pp
+			}
+		}
+	}
+	return parserIDCache[id]
+}
